@@ -155,6 +155,21 @@ func c16Special() []refTree {
 			{Position: "schema.items", Kind: "schema", Shape: "same-tail-path-above-and-below-root-dir", Ref: "../schemas/lib.json#/components/schemas/T", Marker: "MARKABOVET"},
 			{Position: "schema.allOf[0]", Kind: "schema", Shape: "same-tail-path-above-and-below-root-dir", Ref: "schemas/lib.json#/components/schemas/T", Marker: "MARKBELOWT"},
 		})
+		// (a3) a recursive whole-file schema in a sub-directory (it refers to itself by its bare file name) next to a
+		// different file of the same name beside the root
+		root = refRootSkeleton()
+		dig(root, "components", "schemas")["Site"] = gen.S{"$ref": "schemas/node.json"}
+		dig(root, "components", "schemas", "Holder", "properties")["p"] = gen.S{"$ref": "node.json"}
+		dig(root, "components", "schemas")["Arr"] = gen.S{"type": "array", "items": gen.S{"$ref": "schemas/node.json"}}
+		mk(rootPath, root, map[string]gen.S{
+			dir + "/schemas/node.json": {"type": "object", "title": "MARKSUBNODE", "properties": gen.S{"next": gen.S{"$ref": "node.json"}, "v": gen.S{"type": "integer"}}},
+			dir + "/node.json":         {"type": "object", "title": "MARKROOTNODE", "properties": gen.S{"w": gen.S{"type": "string"}}, "required": gen.Arr("w")},
+		}, []refPlan{
+			{Position: "components.schemas.Site", Kind: "schema", Shape: "recursive-whole-file-in-subdirectory", Ref: "schemas/node.json", Marker: "MARKSUBNODE"},
+			{Position: "nested:Site.next", Kind: "schema", Shape: "recursive-whole-file-in-subdirectory", Ref: "node.json", Marker: "MARKSUBNODE"},
+			{Position: "schema.properties.p", Kind: "schema", Shape: "recursive-whole-file-in-subdirectory", Ref: "node.json", Marker: "MARKROOTNODE"},
+			{Position: "schema.items", Kind: "schema", Shape: "recursive-whole-file-in-subdirectory", Ref: "schemas/node.json", Marker: "MARKSUBNODE"},
+		})
 		// (b) a root component that IS a whole-file reference + a reference into a sub-fragment of that file, in a component that sorts earlier
 		root = refRootSkeleton()
 		dig(root, "components", "schemas")["Record"] = gen.S{"$ref": "schemas/record.json"}
@@ -298,6 +313,12 @@ func c16Nested(d *openapi3.T, pos string) (string, string, bool, bool) {
 			return "", "", false, false
 		}
 		return schemaInfo(s.Value.Properties["recordId"])
+	case "nested:Site.next":
+		s := d.Components.Schemas["Site"]
+		if s == nil || s.Value == nil {
+			return "", "", false, false
+		}
+		return schemaInfo(s.Value.Properties["next"])
 	case "nested:Site.r":
 		s := d.Components.Schemas["Site"]
 		if s == nil || s.Value == nil {
